@@ -15,7 +15,6 @@ import (
 	"os"
 	"sort"
 	"strings"
-	"sync"
 	"testing"
 	"time"
 
@@ -114,41 +113,27 @@ func (w *world) ctx() context.Context {
 	return w.cl.Ctx()
 }
 
-// trigCtx is a context that ends when fire is called: as a cancellation or as an expired deadline.
+// trigCtx is the caller's context of a cancellation run: a standard cancellable context (so that the
+// end propagates SYNCHRONOUSLY to the contexts utils.Txn derives from it) that ends when fire is called.
+// A deadline that expires is the same event for the code under test (Done closed, Err non-nil); an exact
+// step-synchronised expiry cannot be produced with a timer, so both variants use cancellation and differ
+// only in whether the context carries a (far) deadline.
 type trigCtx struct {
 	context.Context
-	mu       sync.Mutex
-	done     chan struct{}
-	err      error
-	deadline bool
+	cancel context.CancelFunc
 }
 
 func newTrigCtx(parent context.Context, deadline bool) *trigCtx {
-	return &trigCtx{Context: parent, done: make(chan struct{}), deadline: deadline}
-}
-func (c *trigCtx) Done() <-chan struct{} { return c.done }
-func (c *trigCtx) Err() error {
-	c.mu.Lock()
-	defer c.mu.Unlock()
-	return c.err
-}
-func (c *trigCtx) Deadline() (time.Time, bool) {
-	if c.deadline {
-		return time.Now().Add(time.Hour), true
+	if deadline {
+		var c1 context.CancelFunc
+		parent, c1 = context.WithDeadline(parent, time.Now().Add(time.Hour))
+		_ = c1
 	}
-	return time.Time{}, false
+	ctx, cancel := context.WithCancel(parent)
+	return &trigCtx{Context: ctx, cancel: cancel}
 }
-func (c *trigCtx) fire() {
-	c.mu.Lock()
-	if c.err == nil {
-		c.err = context.Canceled
-		if c.deadline {
-			c.err = context.DeadlineExceeded
-		}
-		close(c.done)
-	}
-	c.mu.Unlock()
-}
+
+func (c *trigCtx) fire() { c.cancel() }
 
 func (w *world) idOf(real string) int {
 	if v, ok := w.ids[real]; ok {
